@@ -47,8 +47,35 @@ func relay(ns *native.NativeService) ([]byte, error) {
 	return utils.BYTE_TRUE, nil
 }
 
+// tryRelay: NativeCall(first) with its error SWALLOWED, then NativeCall(second). Only used for the latent-behaviour note
+// (no contract in the tree calls NativeCall at all, let alone continues after a failed call).
+func tryRelay(ns *native.NativeService) ([]byte, error) {
+	src := common.NewZeroCopySource(ns.GetInput())
+	first, _ := src.NextVarBytes()
+	second, eof := src.NextVarBytes()
+	if eof {
+		return utils.BYTE_FALSE, fmt.Errorf("probe tryRelay: bad input")
+	}
+	call := func(b []byte) error {
+		s := common.NewZeroCopySource(b)
+		target, _ := s.NextAddress()
+		method, _ := s.NextString()
+		args, eof := s.NextVarBytes()
+		if eof {
+			return fmt.Errorf("probe tryRelay: bad call")
+		}
+		_, err := ns.NativeCall(target, method, args)
+		return err
+	}
+	_ = call(first)
+	if err := call(second); err != nil {
+		return utils.BYTE_FALSE, err
+	}
+	return utils.BYTE_TRUE, nil
+}
+
 func installProbes() {
-	reg := func(ns *native.NativeService) { ns.Register(relayMethod, relay) }
+	reg := func(ns *native.NativeService) { ns.Register(relayMethod, relay); ns.Register("tryRelay", tryRelay) }
 	native.Contracts[probe1] = reg
 	native.Contracts[probe2] = reg
 }
@@ -179,4 +206,32 @@ func selfCheck(e *env) string {
 	add(3, e.tx(utils.NodeManagerContractAddress, node_manager.COMMIT_DPOS, nil, polyenv.Multi(e.vals)))
 	add(3, e.tx(probe1, relayMethod, relayArgs(utils.NodeManagerContractAddress, node_manager.COMMIT_DPOS, nil), polyenv.Single(o1)))
 	return mapworld.SelfCheck(e.vals, ops, ts)
+}
+
+// latentContextLeak: NativeService.Invoke does not pop the callee's context when the callee fails. A caller that swallowed
+// the error and calls on would present the FAILED callee as calling context. Unreachable with the contracts in the tree
+// (nothing calls NativeCall); reported as a note, not as a violation.
+func (x *runner) latentContextLeak() {
+	e := x.e
+	RM := utils.RelayerManagerContractAddress
+	NM := utils.NodeManagerContractAddress
+	// first call: node_manager.registerCandidate with garbage -> fails inside node_manager (context NM stays on the stack)
+	first := relayArgs(NM, node_manager.REGISTER_CANDIDATE, []byte{0xff})
+	var second []byte
+	for _, sc := range e.scenarios() {
+		if sc.ID == "RelayerManagerContractAddress.registerRelayer" {
+			second = relayArgs(RM, sc.Method, sc.Args(NM)) // named owner = node_manager's address
+		}
+	}
+	s := common.NewZeroCopySink(nil)
+	s.WriteVarBytes(first)
+	s.WriteVarBytes(second)
+	u := polyenv.Single(e.accts["U"])
+	u.Sign = true
+	tx := e.tx(probe1, "tryRelay", s.Bytes(), u)
+	_, ok, err := x.execBoth(e.base, tx, 10, "latent context leak")
+	x.r.Note("latent_context_leak_after_swallowed_callee_error", map[string]any{
+		"what":     "tx(unrelated key) -> P1.tryRelay{ NativeCall(node_manager, fails) ignored; NativeCall(relayer_manager.registerRelayer, owner = node_manager address) }",
+		"accepted": ok, "error": fmt.Sprint(err),
+		"meaning":  "accepted=true: the witness check passed for a contract that is not the immediate caller, because Invoke() leaves the failed callee on the context stack; not reachable in the tree (no contract uses NativeCall)"})
 }
